@@ -82,6 +82,58 @@ EDITS = [
     ('gen_try_from_explicit_call', GW, [('''                fn try_from(entity: &EntityAny) -> Result<Self, EcsError> {
                     (*entity).try_into()''', '''                fn try_from(entity: &EntityAny) -> Result<Self, EcsError> {
                     Self::try_from(*entity)''')], ['C14']),
+    ('query_generator_reorder_pure_lets', 'macros/src/generate/query.rs', [('''    // Variables and fields
+    let world = &query_data.world;
+    let body = &query_data.body;
+    let arg = query_data.params.iter().map(to_name).collect::<Vec<_>>();
+    let attrs = query_data
+        .params
+        .iter()
+        .map(to_attributes)
+        .collect::<Vec<_>>();
+
+    // Special cases''', '''    // Variables and fields
+    let body = &query_data.body;
+    let world = &query_data.world;
+    let attrs = query_data
+        .params
+        .iter()
+        .map(to_attributes)
+        .collect::<Vec<_>>();
+    let arg = query_data.params.iter().map(to_name).collect::<Vec<_>>();
+
+    // Special cases''')], ['C05']),
+    ('query_generator_extra_pure_let', 'macros/src/generate/query.rs', [('''            // Types and traits
+            let Archetype = format_ident!("{}", archetype.name);
+            let Type = bound_params''', '''            // Types and traits
+            let Archetype = format_ident!("{}", archetype.name);
+            let _ArchetypeDoc = format!("matched archetype {}", archetype.name);
+            let Type = bound_params''')], ['C05']),
+    ('cfg_evaluate_negation_style', 'macros/src/data.rs', [('''        if *cfg_lookup.get(&predicate).unwrap() == false {
+            return false;''', '''        if !*cfg_lookup.get(&predicate).unwrap() {
+            return false;''')], ['C16']),
+    ('cfg_table_named_key', 'macros/src/parse/cfg.rs', [('cfg_lookup.insert(predicate.to_string(), state);', 'let key = predicate.to_string();\n            cfg_lookup.insert(key, state);')], ['C16']),
+    ('gen_event_iter_comment_and_noop', GW, [('Some(next) => return Some(next.into()),', 'Some(next) => { self.which += 0; return Some(next.into()) },')], ['C17']),
+    ('gen_world_contains_via_resolve', GW, [('''entity: Entity<#Archetype>,
+                    ) -> bool {
+                        self.archetype::<#Archetype>().contains(entity)''', '''entity: Entity<#Archetype>,
+                    ) -> bool {
+                        self.archetype::<#Archetype>().resolve(entity).is_some()''')], ['C01']),
+    ('entity_try_from_match_style', 'src/entity.rs', [('''    fn try_from(entity: EntityAny) -> Result<Self, Self::Error> {
+        if entity.archetype_id() == A::ARCHETYPE_ID {''', '''    fn try_from(entity: EntityAny) -> Result<Self, Self::Error> {
+        if A::ARCHETYPE_ID == entity.archetype_id() {''')], ['C14', 'C03']),
+    ('find_template_version_after_archetype', 'macros/src/generate/query.rs', [('''                    let archetype = #get_archetype;
+                    let version = archetype.version();
+
+                    #fetch.map(|found| closure(#(#attrs #bind),*))
+                }
+                #__WorldSelectTotal::#ArchetypeDirect(#resolved_entity) => {''', '''                    let archetype = #get_archetype;
+                    // (the archetype version cannot change before the fetch below)
+                    let version = archetype.version();
+
+                    #fetch.map(|found| closure(#(#attrs #bind),*))
+                }
+                #__WorldSelectTotal::#ArchetypeDirect(#resolved_entity) => {''')], ['C09']),
     ('gen_traits_default_method_reformatted', 'src/traits.rs', [('''        <Self as ArchetypeCanResolve<K>>::resolve_for(self, entity).is_some()''', '''        let found = <Self as ArchetypeCanResolve<K>>::resolve_for(self, entity);
         found.is_some()''')], ['C01']),
 ]
